@@ -90,3 +90,9 @@ Definition x_logical_zi (x : sx) : sx :=
             else []) (allstates m (q + herald_total h)))
      else L [];
      L (map (fun b => of_bool (passes h p (basis m q h b))) (nbasis q))].
+
+(* args: m, heralds, ps, q -> for every logical state, whether it passes heralds and post-selection (no amplitude
+   is computed: used when the permanent of a converted circuit is too large for the exact model) *)
+Definition x_logical_passes (x : sx) : sx :=
+  let m := to_nat (nthx 0 x) in let h := to_heralds (nthx 1 x) in let p := to_ps (nthx 2 x) in let q := to_nat (nthx 3 x) in
+  L (map (fun b => of_bool (passes h p (basis m q h b))) (nbasis q)).
